@@ -76,6 +76,10 @@ def cases(tier, seed):
         for e in (-50, 40):
             out.append({"key": f"scaled/{m}x{n}/2^{e}", "kind": "scaled", "m": m, "n": n, "cls": "generic", "row": 0, "e": e})
             out.append({"key": f"scaled-zero-col/{m}x{n}/2^{e}", "kind": "scaled", "m": m, "n": n, "cls": "ints", "row": 0, "e": e, "zc": 0})
+    # enumerated list of larger shapes (blocked / panelled code paths), full rank and one zero column
+    for (m, n) in ((9, 7), (7, 9), (12, 12), (17, 5), (5, 17), (65, 3), (3, 65), (1, 9), (9, 1)):
+        out.append({"key": f"large/{m}x{n}", "kind": "layout", "m": m, "n": n, "cls": "generic", "row": 0, "lay": "C"})
+        out.append({"key": f"large-zero-col/{m}x{n}", "kind": "scaled", "m": m, "n": n, "cls": "ints", "row": 0, "e": 0, "zc": min(2, n - 1)})
     return out
 
 
